@@ -97,6 +97,8 @@ impl Check for C16 {
             fs.mkdir_all(&format!("{}/sub", p));
             fs.plant_file(&format!("{}/sub/inner", p), &make_value("inner", 54, 4), 0o444, past - 120_000_000_000, past);
             fs.plant_file(&format!("{}/.appfile", p), &make_value(".appfile", 55, 4), 0o644, past - 120_000_000_000, past);
+            // a dot-file whose name is not valid UTF-8 on disk (byte 0xFF)
+            fs.plant_file(&format!("{}/.app\u{F7FF}file", p), &make_value(".appfile", 59, 4), 0o644, past - 120_000_000_000, past);
             fs.plant_file(&format!("{}/good", p), &make_value("good", 56, 4), 0o444, past - 120_000_000_000, past);
             fs.plant_file(&format!("{}/escape", p), &make_value("escape", 57, 4), 0o444, past - 120_000_000_000, past);
             match pre_a {
